@@ -762,6 +762,18 @@ class Provides(Declaration):  # Really named ProvidesClass
             self, *self._add_interfaces_to_cls(interfaces, cls)
         )
 
+    def changed(self, originally_changed):
+        # Our bases leave out the interfaces the class already implemented
+        # when we were created.  Once something we depend on changes, that
+        # may no longer be right for a declaration made from now on, so
+        # stop handing this object out for new declarations.
+        if (
+            originally_changed is not self and
+            InstanceDeclarations.get(self.__args) is self
+        ):
+            del InstanceDeclarations[self.__args]
+        super().changed(originally_changed)
+
     # Added to by ``moduleProvides``, et al
     _v_module_names = ()
 
